@@ -183,6 +183,9 @@ theorem rankSpec_shift (t : Pt) (S : List Pt) (p : Pt) (hS : ∀ q ∈ S, q.leng
   rankSpec_map_of_embedding (shiftPt t) (fun q => q.length ≤ t.length)
     (fun a b ha hb => dominates_shift t a b ha hb) S hS p hp
 
+example : rankSpec ([[1, 1], [2, 2], [0, 3]].map (shiftPt [-4, 9])) (shiftPt [-4, 9] [2, 2]) = 2 := by
+  simp [shiftPt, rankSpec_eq, dominates, leAll]
+
 theorem fastSort_shift (t : Pt) (pts : List Pt) (hm : ∀ p ∈ pts, p.length = t.length) :
     fastSort (pts.map (shiftPt t)) = fastSort pts := by
   have hm' : Dims (pts.map (shiftPt t)) t.length := by
@@ -271,6 +274,9 @@ theorem contribSpec_shift (t : Pt) (S : List Pt) (r : Pt) (i : Nat) (hS : ∀ p 
   unfold contribSpec
   rw [hvSpec_shift t S r hS hr, eraseIdx_map',
     hvSpec_shift t (S.eraseIdx i) r (fun p hp => hS p (List.mem_of_mem_eraseIdx hp)) hr]
+
+example : contribSpec ([[1, 3], [2, 1]].map (shiftPt [-5, 7])) (shiftPt [-5, 7] [4, 4]) 1 = 4 ∧
+    contribSpec [[1, 3], [2, 1]] [4, 4] 1 = 4 := by decide
 
 theorem boxVol_shift : ∀ (t p r : Pt), p.length ≤ t.length → r.length ≤ t.length →
     boxVol (shiftPt t p) (shiftPt t r) = boxVol p r
